@@ -63,14 +63,13 @@ new.append(entry("C03",
     not_decided=["'keeps waiting for S until its deadline' is a statement about time; only its safety half (a rejected datagram is never returned) is decided"],
     explanation="`accept`: whenever an operation returns without error the single reply recorded in `recv` is 64 bytes, starts with 0x17 (or 0x19 with function 0x20), carries the operation's function code and the addressed serial number. The broadcast acceptance callback is verified to accept exactly (len 64, serial S)."))
 new.append(entry("C06",
-    functions=OPS + ["uhppote.sendto$1", "uhppote.(*ut0311).BroadcastTo", "uhppote.(*ut0311).SendUDP", "uhppote.(*ut0311).SendTCP"],
+    functions=OPS + ["uhppote.sendto$1", "uhppote.(*ut0311).BroadcastTo", "uhppote.(*ut0311).SendUDP", "uhppote.(*ut0311).SendTCP", "uhppote.(*ut0311).Broadcast", "uhppote.(*uhppote).GetDevices"],
     scope=[OPRE + r"ensures:(route|once)$", OPRE + r"requires:", r"^uhppote\.sendto\$1", r"^uhppote\.\(\*ut0311\)\.\w+#(ensures:(one|bind|dial|sent|once)|loop1\.|requires:)"],
     replay=ops_replay(("route", "route"), ("once", "route")),
     pinned_file="pins_uhppote.json", pinned_labels=["contract", "macro"],
     assumptions=COMMON_ASSUME + ["net.UDPAddrFromAddrPort / TCPAddrFromAddrPort / net.IPv4bcast / IP.To4 models (engine/vc/libnet.go)"],
-    not_decided=["IP-level fan-out of a broadcast ('no other endpoint receives anything') is outside function contracts; stated at the level of driver and socket calls",
-                 "ut0311.Broadcast (discovery): a goroutine reads the replies - outside the sequential subset"],
-    explanation="`route`: the one request of an operation goes to the driver method and endpoint given by the routing macro `routed` (configured usable address: SendUDP, or SendTCP when Protocol == \"tcp\"; otherwise BroadcastTo the configured broadcast address, 255.255.255.255:60000 when none is configured)."))
+    not_decided=["IP-level fan-out of a broadcast ('no other endpoint receives anything') is outside function contracts; stated at the level of driver and socket calls"],
+    explanation="`route`: the one request of an operation goes to the driver method and endpoint given by the routing macro `routed` (configured usable address: SendUDP, or SendTCP when Protocol == \"tcp\"; otherwise BroadcastTo the configured broadcast address, 255.255.255.255:60000 when none is configured); discovery (GetDevices) goes to the configured broadcast address through driver.Broadcast. At driver level BroadcastTo / SendUDP / SendTCP / Broadcast: one socket bound to the configured bind address, dialled udp4 / tcp4 to the requested endpoint where connected, exactly one write of the request to the requested destination."))
 new.append(entry("C07",
     functions=OPS + ["uhppote.isWiegand26", "uhppote.isCardNumberValid", "types.(HHmm).Before", "types.(HHmm).After"],
     scope=[OPRE + r"ensures:(reject|once)$", OPRE + r"requires:", r"^uhppote\.isWiegand26#", r"^uhppote\.isCardNumberValid#", r"^types\.\(HHmm\)\.(Before|After)#ensures:order$"],
@@ -129,8 +128,8 @@ new.append(entry("C05",
     replay=[{"match": "messages.lemmaDecode", "driver": "messages_decode", "pkg": "messages", "case": "all"}],
     assumptions=COMMON_ASSUME + ["bcd.* and time.* spec functions are opaque in the message-level lemmas; the facts used about them are the spec lemmas bcd.pack.inv, bcd.val2.inv, bcd.zero and time.fields.range, proved from the definitions on every run"],
     not_decided=["date/time fields: the message-level lemma proves that the field is written in its BCD form at its offset and read back from the same offset (wire.date / wire.rdate ...); that reading back yields the same civil value in every time zone is the per-type statement of C13",
-                 "independence from non-field bytes is not stated as a separate lemma"],
-    explanation="For each of the 65 message structs T (32 requests, 31 replies, Event, EventV6_62) the lemma function lemmaRoundTrip<T>(v) = Unmarshal(Marshal(v)) is verified with the reflective codec executed on its real body: for every in-domain v decoding succeeds and every integer/boolean/PIN/HH:mm/IPv4/address:port/MAC/version field of the result equals the field of v; lemmaDecode<T>(b) shows that an arbitrary byte string is only accepted when it is 64 bytes long and carries T's protocol id and function code."))
+                 ],
+    explanation="INDEPENDENCE from non-field bytes: lemmaDecode<T> (`fields`) states every field of a successfully decoded T as a function of the bytes at that field's own offset and width (little-endian integers, 0/1 booleans, BCD dates and times through the read-side specs wire.rdate / rdatetime / rhhmm, IPv4, address:port, MAC) - for an ARBITRARY 64-byte input, so the decoded value cannot depend on a byte that belongs to no field. ROUND TRIP: for each of the 65 message structs T (32 requests, 31 replies, Event, EventV6_62) the lemma function lemmaRoundTrip<T>(v) = Unmarshal(Marshal(v)) is verified with the reflective codec executed on its real body: for every in-domain v decoding succeeds and every integer/boolean/PIN/HH:mm/IPv4/address:port/MAC/version field of the result equals the field of v; lemmaDecode<T>(b) shows that an arbitrary byte string is only accepted when it is 64 bytes long and carries T's protocol id and function code."))
 
 
 new.append(entry("C13", conformance=["timeconf"],
@@ -238,7 +237,7 @@ new.append(entry("C10", level="other",
                                  "driver.Listen starts the receive loop and returns (interface contract without obligations); its implementation ut0311.Listen is verified against its own contract",
                                  "closing a channel is a ghost event of the function (chancloses); socket events as for C09"],
     not_decided=["exactly-once / in-order delivery ACROSS the two goroutines and the unbuffered channel, the ORDER of shutdown events between goroutines, re-binding immediately: statements about interleavings. Decided instead, per function: the stop protocol's events - listen() closes the signal channel exactly once and only after OnConnected; the signal waiter closes the socket exactly once; the receive loop closes `done` exactly once when it ends",
-                 "that a delivered status 'does not change afterwards' is decided only as: its door maps are allocated per event (fresh); the status struct itself is a local of the loop body"],
+                 "that a delivered status 'does not change afterwards' is decided as: the status handed to OnEvent is a variable created anew for every event (newvar: its allocation site lies inside the dispatch loop) and its door maps are allocated per event (fresh) - the library keeps no reference to either; what the listener does with them is the listener's business"],
     explanation="Decided per datagram: the receive handler (closure listen$1) produces for EVERY byte string exactly one of - one send of a freshly decoded event on the pipe, and then the datagram was 64 bytes, protocol id 0x17 or 0x19, function code 0x20, non-zero serial number, boolean bytes 0/1, and every field of the event is the protocol decoding of the datagram - or exactly one OnError callback and no send; it never calls OnEvent/OnConnected. the dispatch goroutine (closure Listen$2) calls OnEvent exactly once per event received from the pipe, with a status whose every field is the mapping of that event (precondition of the Listener.OnEvent contract, checked at the single call site; event present iff index != 0; system date and time combined by the verified closure Listen$1) and never calls OnError/OnConnected; listen() calls OnConnected exactly once, after driver.Listen returned nil, and returns nil; on a driver error it returns the error without OnConnected. The driver's Listen (ut0311.Listen) refuses port 0, opens exactly one UDP socket bound to the listen address and starts exactly two goroutines, nothing on failure; the signal waiter closes that socket exactly once; the receive loop reads into one buffer that can hold an over-length datagram, hands every datagram read without error to the handler and closes `done` exactly once when it ends. Level 'other': the cross-goroutine clauses cannot be expressed as function contracts."))
 
 
